@@ -172,38 +172,58 @@ Definition sq (x : F) : F := x * x.
 (* |a - b| <= rel * max(|b|, floor), tested on squares *)
 Definition close1 (rel2 floor2 : F) (a b : F) : bool := sq (a - b) <= rel2 * Num.max (sq b) floor2.
 
-(* codes: 0 ok, 1 no spec, 20 dof, 21 weighted residuals, 22 chi2, 23 rse, 24 covariance,
-   25 covariance not symmetric, 26 negative variance, 27 variance accessors, 28 correlation,
-   29 confidence sigma, 30 band radius, 31 shapes *)
+(* The acceptance predicate for statistics checks the implementation's outputs against the
+   DEFINING EQUATIONS of spec_stats instead of recomputing the inverse (which is expensive in exact
+   arithmetic): Cov is accepted when (H^T H) Cov = chi2 * 1 holds up to rounding — by uniqueness of
+   the inverse (Proofs/NumericP: inv_unique / spec_stats_covE) that equation characterises
+   chi2 (H^T H)^-1; everything else is a product or a quotient by a small integer.
+   codes: 0 ok, 1 under-determined (no statistics) or too ill-conditioned to compare, 20 dof, 21 weighted residuals, 22 chi2, 23 rse,
+   24 covariance, 25 covariance not symmetric, 26 negative variance, 27 variance accessors,
+   28 correlation, 29 confidence sigma, 30 band radius, 31 shapes *)
 Definition check_stats (cu2 floor2 k2max : F) (n m p : nat) (w : option (seq F)) (Phi : smx)
            (Ds : seq smx) (y c : seq F) (o : stats_obs) : nat :=
-  match spec_stats n m p w Phi Ds y c with
-  | None => 1%N
-  | Some s =>
-      if k2max < st_k2 s then 1%N else
-      let q := (m + p)%N in
-      let t2 := tol2_solve cu2 n q (st_k2 s) in
-      let e2 := cu2 * (n * q)%N%:R in
-      if sb_dof o != st_dof s then 20%N
-      else if ~~ [&& wf q q (sb_cov o), wf q q (sb_corr o), size (sb_rw o) == n & size (sb_usigma o) == n] then 31%N
-      else if ~~ (svnrm2 (svsub (sb_rw o) (st_rw s)) <= e2 * Num.max (svnrm2 (wscalev w y)) floor2) then 21%N
-      else if ~~ close1 t2 floor2 (sb_chi2 o) (st_chi2 s) then 22%N
-      else if ~~ close1 t2 floor2 (sq (sb_rse o)) (st_chi2 s) then 23%N
-      else if ~~ close2 t2 floor2 (flatten (sb_cov o)) (flatten (st_cov s)) then 24%N
-      else if ~~ close2 e2 floor2 (flatten (sb_cov o)) (flatten (strans q (sb_cov o))) then 25%N
-      else if ~~ all (fun v => 0 <= v) (sdiagv (sb_cov o)) then 26%N
-      else if ~~ ((sb_lin_var o == take m (sdiagv (sb_cov o))) && (sb_nl_var o == drop m (sdiagv (sb_cov o)))) then 27%N
-      else if ~~ all (fun ij =>
-                   let cii := nth 0 (sdiagv (sb_cov o)) ij.1 in
-                   let cjj := nth 0 (sdiagv (sb_cov o)) ij.2 in
-                   let cij := ent (sb_cov o) ij.1 ij.2 in
-                   let rij := ent (sb_corr o) ij.1 ij.2 in
-                   close1 e2 floor2 (sq rij * cii * cjj) (sq cij) && (0 <= rij * cij) && (sq rij <= 1 + e2))
-                 [seq (i, j) | i <- iota 0 q, j <- iota 0 q] then 28%N
-      else if ~~ all (fun uv => close1 t2 floor2 (sq uv.1) uv.2 && (0 <= uv.1)) (zip (sb_usigma o) (st_sig2 s)) then 29%N
-      else if ~~ all (fun b => (size b.2 == n) &&
-                   all (fun ru => close1 e2 floor2 ru.1 (b.1 * ru.2) && (0 <= ru.1)) (zip b.2 (sb_usigma o)))
-                 (sb_bands o) then 30%N
-      else 0%N
-  end.
+  if (n <= m + p)%N then 1%N else
+  let q := (m + p)%N in
+  let J := mfj n Phi Ds c in
+  let H := wscale w J in
+  let rw := svsub (wscalev w y) (lincomb n (wscale w Phi) c) in
+  let dof := (n - q)%N in
+  let G := sgram n H in
+  let e2 := cu2 * (n * q)%N%:R in
+  let cov := sb_cov o in
+  if sb_dof o != dof then 20%N
+  else if ~~ [&& wf q q cov, wf q q (sb_corr o), size (sb_rw o) == n & size (sb_usigma o) == n] then 31%N
+  else if ~~ (svnrm2 (svsub (sb_rw o) rw)
+              <= e2 * Num.max (Num.max (svnrm2 (wscalev w y)) (sfro2 (wscale w Phi) * svnrm2 c)) floor2) then 21%N
+  (* the weighted residuals are a difference of nearly equal numbers at a good fit: chi2 is compared with
+     the implementation's own (already accepted) residual vector, so that cancellation is not held against it *)
+  else if ~~ close1 e2 floor2 (sb_chi2 o) (svnrm2 (sb_rw o) / dof%:R) then 22%N
+  else if ~~ close1 e2 floor2 (sq (sb_rse o)) (sb_chi2 o) then 23%N
+  (* conditioning of H^T H estimated from the implementation's covariance: ||G|| ||Cov|| / chi2; beyond k2max the
+     rounding error of any inversion is of the order of the result: not compared (code 1) *)
+  else if sq k2max * sq (sb_chi2 o) < sfro2 G * sfro2 cov then 1%N
+  (* residual of the defining equation, relative to ||G|| ||Cov||, within the forward error bound u * kappa
+     of a computed inverse *)
+  else if ~~ (sfro2 (ssub (smul q G cov) (sscale (sb_chi2 o) (sident F q))) * sq (sb_chi2 o)
+              <= e2 * (sfro2 G * sfro2 cov) * Num.max (sq (sb_chi2 o)) (sfro2 G * sfro2 cov)) then 24%N
+  (* symmetric up to rounding: the asymmetry of a computed inverse grows with the condition number of H^T H,
+     estimated by ||H^T H|| ||Cov|| / chi2 from the covariance just accepted *)
+  else if ~~ (sfro2 (ssub cov (strans q cov)) * sq (sb_chi2 o) <= e2 * (sfro2 G * sfro2 cov) * sfro2 cov) then 25%N
+  else if ~~ all (fun v => 0 <= v) (sdiagv cov) then 26%N
+  else if ~~ ((sb_lin_var o == take m (sdiagv cov)) && (sb_nl_var o == drop m (sdiagv cov))) then 27%N
+  else if ~~ all (fun ij =>
+               let cii := nth 0 (sdiagv cov) ij.1 in
+               let cjj := nth 0 (sdiagv cov) ij.2 in
+               let cij := ent cov ij.1 ij.2 in
+               let rij := ent (sb_corr o) ij.1 ij.2 in
+               close1 e2 floor2 (sq rij * cii * cjj) (sq cij) && (0 <= rij * cij) && (sq rij <= 1 + e2))
+             [seq (i, j) | i <- iota 0 q, j <- iota 0 q] then 28%N
+  else if ~~ all (fun uj =>
+               let s2 := svdot uj.2 (lincomb q cov uj.2) in
+               (sq (sq uj.1 - s2) <= e2 * (sq (svnrm2 uj.2) * sfro2 cov)) && (0 <= uj.1))
+             (zip (sb_usigma o) (strans n J)) then 29%N
+  else if ~~ all (fun b => (size b.2 == n) &&
+               all (fun ru => close1 e2 floor2 ru.1 (b.1 * ru.2) && (0 <= ru.1)) (zip b.2 (sb_usigma o)))
+             (sb_bands o) then 30%N
+  else 0%N.
 End Numeric.
